@@ -50,7 +50,7 @@ Proof.
       - destruct (Hold v V GV) as (V2 & G2 & SM & _). rewrite GV' in G2. injection G2 as <-.
         exists V. split; auto. apply same_meta_wl; auto.
       - exfalso. apply get_lt in GV'. rewrite (V_len _ _ _ _ _ _ _ _ RV) in GV'.
-        assert (v < List.length (units s)) by lia. destruct (get_some s v H4) as [V GV2]. congruence. }
+        assert (Hvlt : v < List.length (units s)) by lia. destruct (get_some s v Hvlt) as [V GV2]. congruence. }
     intros c C' v ch V' Lc GC' Hin GV'. apply Hliv in Lc. destruct Lc as [->|(Lc & N1 & N2)].
     + (* the new unit *)
       rewrite Hnew in GC'. injection GC' as <-. cbn [ins set_place] in Hin.
